@@ -86,7 +86,9 @@ def run_call(c, variant):
         elif op == "ablate":
             ev["shuf"] = [[base.decode(s) for s in row] for row in ersatz.shuffle(x, start=c["start"], end=c["end"], n=c["n"],
                                                                                  random_state=seed)]
-            yb, ya = ablate(model, x, c["start"], c["end"], n=c["n"], args=args, random_state=seed, device="cpu",
+            # the same region with its end counted from the back of the sequence (-1 = up to the last position), by turns
+            end_arg = c["end"] - x.shape[-1] - 1 if variant % 3 == 1 else c["end"]
+            yb, ya = ablate(model, x, c["start"], end_arg, n=c["n"], args=args, random_state=seed, device="cpu",
                             batch_size=c["bs"])
             b, a = outputs(yb, c, 1), outputs(ya, c, 2)
         elif op == "space":
@@ -173,14 +175,19 @@ def run_func_lane(seed, n_calls):
                 if which == "ablate_dls":
                     ns = rng.randint(1, 3); s0 = rng.randint(0, L - 3); e0 = rng.randint(s0 + 2, L)
                     kw = dict(n_shuffles=2, device="cpu", batch_size=rng.choice([1, 3, 32]))
+                    rsf = rs          # the seed func itself is to use
                     if k % 2:       # keyword arguments reach func either through additional_func_kwargs or through **kwargs
-                        yb, ya = ablate(model, x, s0, e0, n=ns, args=args, random_state=rs, func=deep_lift_shap, additional_func_kwargs=dict(kw))
+                        akw = dict(kw)
+                        if k % 4 == 1:      # a separate seed for func, given through additional_func_kwargs: it must not be overridden
+                            rsf = rs + 17
+                            akw["random_state"] = rsf
+                        yb, ya = ablate(model, x, s0, e0, n=ns, args=args, random_state=rs, func=deep_lift_shap, additional_func_kwargs=akw)
                     else:
                         yb, ya = ablate(model, x, s0, e0, n=ns, args=args, random_state=rs, func=deep_lift_shap, **kw)
                     xp = ersatz.shuffle(x, start=s0, end=e0, n=ns, random_state=rs)
                     an = None if args is None else tuple(a.repeat_interleave(ns, dim=0) for a in args)
-                    fb = deep_lift_shap(model, x, args=args, random_state=rs, **kw)
-                    fa = deep_lift_shap(model, xp.reshape(-1, 4, L), args=an, random_state=rs, **kw)
+                    fb = deep_lift_shap(model, x, args=args, random_state=rsf, **kw)
+                    fa = deep_lift_shap(model, xp.reshape(-1, 4, L), args=an, random_state=rsf, **kw)
                     ev["got"] = [digs(yb), digs(ya.reshape(-1, 4, L))]; ev["fact"] = [digs(fb), digs(fa)]
                 elif which in ("marginalize_dls", "marginalize_ism"):
                     m = [rng.randrange(4) for _ in range(rng.randint(1, 3))]
